@@ -213,8 +213,8 @@ theorem frame2_stepDeqCv {s s' : State} {t : Tid} {j : Nat} {st : CvDeqSt} {e : 
     | (have hsh := shared_deqDone h
        refine Frame2.trans_eq (s1 := _) ?_ hsh.1 hsh.2.1
        refine frame2_own_rec hc hl.1.frees (List.mem_of_getElem? ‹(s.fr t).recs[j]? = some _›) ?_ ?_ ?_
-       · intro o hk hlk; simp; grind
-       · intro o; simp; grind
+       · intro o hk hlk; simp <;> grind
+       · intro o; simp <;> grind
        · intro r' hr'; simp [hr'])
 
 theorem frame2_stepDeq {s s' : State} {t : Tid} {j : Nat} {st : DeqSt} {e : Ev}
